@@ -9,17 +9,27 @@ package main
 //	V ::= nil | (T)payload
 //	payload ::= -?digits | #bits | #re#im | "chars" | t | f | ~ | &id | & | [V,…] | {V,…}
 //
+// `@error` is the interface type error (a slot type only, like `any`). `@Result` is flyt.Result itself,
+// used as an ordinary value: `(@Result){V,E}` is the struct Result{value: V, err: E}. Its fields are not
+// exported, so it is built through the public constructors — flyt.NewResult(V) for `{V,nil}`,
+// flyt.NewErrorResult(E) for `{nil,E}` (nothing else is constructible) — and read back field by field
+// (unsafe) when the implementation hands one out, e.g. inside the output of ToSlice.
+//
 // Types are materialised with reflect (StructOf / ArrayOf / SliceOf / MapOf / ChanOf / PointerTo), so
 // arbitrary nested types can be generated; named types come from the table below (it must match
 // `namedTable` in the driver). Pointers, maps and channels carry an identity number: inside one
 // scenario the same (type, id) is the same object.
 
 import (
+	"errors"
 	"fmt"
 	"math"
 	"reflect"
 	"strconv"
 	"strings"
+	"unsafe"
+
+	"github.com/mark3labs/flyt"
 )
 
 type (
@@ -46,13 +56,40 @@ type (
 	MyFunc func()
 	MyPtr  *int
 	MyChan chan int
+
+	MyInt16      int16
+	MyInt32      int32
+	MyInt64      int64
+	MyUint       uint
+	MyUint8      uint8
+	MyUint32     uint32
+	MyUint64     uint64
+	MyUintptr    uintptr
+	MyComplex64  complex64
+	MyComplex128 complex128
+
+	// error types: a comparable struct, a non-comparable struct, a string
+	MyErr    struct{ Code int }
+	MyNCErr  struct{ Tags []string }
+	MyStrErr string
+
+	// a defined type with flyt.Result as its underlying type: same struct, different type, no methods
+	MyRes flyt.Result
 )
+
+func (e MyErr) Error() string    { return "MyErr" }
+func (e MyNCErr) Error() string  { return "MyNCErr" }
+func (e MyStrErr) Error() string { return string(e) }
 
 var (
 	anyType     = reflect.TypeOf((*any)(nil)).Elem()
 	intType     = reflect.TypeOf(int(0))
 	float32Type = reflect.TypeOf(float32(0))
 	float64Type = reflect.TypeOf(float64(0))
+	errorType   = reflect.TypeOf((*error)(nil)).Elem()
+	resultType  = reflect.TypeOf(flyt.Result{})
+	// errors.errorString (what errors.New returns a pointer to); only ever used behind a pointer
+	errStrType = reflect.TypeOf(errors.New("")).Elem()
 
 	basicTypes = map[string]reflect.Type{
 		"int": intType, "int8": reflect.TypeOf(int8(0)), "int16": reflect.TypeOf(int16(0)),
@@ -70,7 +107,14 @@ var (
 		"MyAnys": reflect.TypeOf(MyAnys(nil)), "MyInts": reflect.TypeOf(MyInts(nil)), "MyStrs": reflect.TypeOf(MyStrs(nil)),
 		"MyMap": reflect.TypeOf(MyMap(nil)), "MyRec": reflect.TypeOf(MyRec{}), "MyNC": reflect.TypeOf(MyNC{}),
 		"MyArr": reflect.TypeOf(MyArr{}), "MyFunc": reflect.TypeOf(MyFunc(nil)), "MyPtr": reflect.TypeOf(MyPtr(nil)),
-		"MyChan": reflect.TypeOf(MyChan(nil)),
+		"MyChan":  reflect.TypeOf(MyChan(nil)),
+		"MyInt16": reflect.TypeOf(MyInt16(0)), "MyInt32": reflect.TypeOf(MyInt32(0)), "MyInt64": reflect.TypeOf(MyInt64(0)),
+		"MyUint": reflect.TypeOf(MyUint(0)), "MyUint8": reflect.TypeOf(MyUint8(0)), "MyUint32": reflect.TypeOf(MyUint32(0)),
+		"MyUint64": reflect.TypeOf(MyUint64(0)), "MyUintptr": reflect.TypeOf(MyUintptr(0)),
+		"MyComplex64": reflect.TypeOf(MyComplex64(0)), "MyComplex128": reflect.TypeOf(MyComplex128(0)),
+		"error": errorType, "Result": resultType, "ErrStr": errStrType,
+		"MyErr": reflect.TypeOf(MyErr{}), "MyNCErr": reflect.TypeOf(MyNCErr{}), "MyStrErr": reflect.TypeOf(MyStrErr("")),
+		"MyRes": reflect.TypeOf(MyRes{}),
 	}
 	// underlying type codes of the named types (used by the generator only)
 	namedUnder = map[string]string{
@@ -78,6 +122,10 @@ var (
 		"MyString": "string", "MyBool": "bool", "MyAnys": "S(any)", "MyInts": "S(int)", "MyStrs": "S(string)",
 		"MyMap": "M(string,any)", "MyRec": "R(int,string)", "MyNC": "R(int,S(int))", "MyArr": "A2(int)",
 		"MyFunc": "F0", "MyPtr": "P(int)", "MyChan": "C(int)",
+		"MyInt16": "int16", "MyInt32": "int32", "MyInt64": "int64", "MyUint": "uint", "MyUint8": "uint8", "MyUint32": "uint32",
+		"MyUint64": "uint64", "MyUintptr": "uintptr", "MyComplex64": "complex64", "MyComplex128": "complex128",
+		"error": "any", "Result": "R(any,@error)", "ErrStr": "R(string)",
+		"MyErr": "R(int)", "MyNCErr": "R(S(string))", "MyStrErr": "string", "MyRes": "R(any,@error)",
 	}
 	funcSigs = []reflect.Type{
 		reflect.TypeOf(func() {}),
@@ -286,6 +334,12 @@ func (c *valCtx) ref(t reflect.Type, id int) reflect.Value {
 		if t.Key().Kind() == reflect.String && t.Elem() == anyType {
 			v.SetMapIndex(reflect.ValueOf("id").Convert(t.Key()), reflect.ValueOf(id))
 		}
+		if k := t.Key().Kind(); k == reflect.Float64 || k == reflect.Float32 {
+			// a map with NaN keys: two entries that no lookup will ever find again
+			nan := reflect.ValueOf(math.NaN()).Convert(t.Key())
+			v.SetMapIndex(nan, reflect.Zero(t.Elem()))
+			v.SetMapIndex(nan, reflect.Zero(t.Elem()))
+		}
 	case reflect.Chan:
 		v = reflect.MakeChan(t, 1)
 	default:
@@ -408,6 +462,9 @@ func (p *codeParser) value() reflect.Value {
 		if k != reflect.Struct {
 			p.fail("struct payload for " + t.String())
 		}
+		if t == resultType || t.ConvertibleTo(resultType) && t.Name() == "MyRes" {
+			return p.resultPayload().Convert(t)
+		}
 		dst := reflect.New(t).Elem()
 		n := 0
 		for p.peek() != '}' {
@@ -458,6 +515,44 @@ func (p *codeParser) value() reflect.Value {
 		return dst
 	}
 	return reflect.Value{}
+}
+
+// resultPayload parses `V,E}` and builds the flyt.Result through the public constructors.
+func (p *codeParser) resultPayload() reflect.Value {
+	val := p.value()
+	p.expect(',')
+	errV := p.value()
+	p.expect('}')
+	switch {
+	case !errV.IsValid():
+		var x any
+		if val.IsValid() {
+			x = val.Interface()
+		}
+		return reflect.ValueOf(flyt.NewResult(x))
+	case !val.IsValid():
+		e, ok := errV.Interface().(error)
+		if !ok {
+			p.fail("err field of a Result: " + errV.Type().String() + " is not an error")
+		}
+		return reflect.ValueOf(flyt.NewErrorResult(e))
+	}
+	p.fail("a Result with both a value and an error cannot be constructed")
+	return reflect.Value{}
+}
+
+// resultFields reads the two unexported fields of a flyt.Result (value any, err error) as ordinary,
+// readable reflect values. ok=false if the struct no longer looks like that.
+func resultFields(rv reflect.Value) (val, err reflect.Value, ok bool) {
+	t := rv.Type()
+	if t.NumField() != 2 || t.Field(0).Type != anyType || t.Field(1).Type != errorType {
+		return val, err, false
+	}
+	c := reflect.New(t).Elem()
+	c.Set(rv)
+	val = reflect.NewAt(anyType, unsafe.Pointer(c.Field(0).UnsafeAddr())).Elem()
+	err = reflect.NewAt(errorType, unsafe.Pointer(c.Field(1).UnsafeAddr())).Elem()
+	return val, err, true
 }
 
 func setSlot(dst reflect.Value, v reflect.Value) {
@@ -545,6 +640,13 @@ func encodeRV(rv reflect.Value, ctx *valCtx) string {
 	case reflect.Array:
 		return pre + "[" + encodeElems(rv, rv.Len(), ctx) + "]"
 	case reflect.Struct:
+		if t == resultType || t.ConvertibleTo(resultType) && t.Name() == "MyRes" {
+			val, err, ok := resultFields(rv)
+			if !ok {
+				return pre + "?"
+			}
+			return pre + "{" + encodeRV(val, ctx) + "," + encodeRV(err, ctx) + "}"
+		}
 		parts := make([]string, rv.NumField())
 		for i := range parts {
 			parts[i] = encodeRV(rv.Field(i), ctx)
